@@ -247,7 +247,7 @@ let frames_family (dir : string) =
         k := int_of_string kk; nev := 0; nframes := 0; rejected := false; late_ok := true;
         Hashtbl.reset cfgs;
         st := Some (init_cst (sb pop) (mode = "auto") (sb delay))
-    | ["bar"; i; _total; prio; _rm; _nopop; _after; xrows; xrev; _syncw] ->
+    | "bar" :: i :: _total :: prio :: _rm :: _nopop :: _after :: xrows :: xrev :: _ ->
         Hashtbl.replace cfgs (int_of_string i)
           { c_prio = (if prio = "-1000000" then None else Some (cz prio)); c_xrows = cz xrows; c_xrev = sb xrev }
     | ["end"] -> finish ()
@@ -299,7 +299,7 @@ let frames_family (dir : string) =
          | ("CL_ADD" | "RET_ADD" | "RET_PRIO" | "RET_WRITE" | "CL_TICK" | "RET_TICK" | "CL_DELAYEND" | "CL_WAIT"
            | "RET_WAIT" | "LS_DONE" | "HM_ITER" | "HM_ITERDROP" | "HM_POPDROP" | "BAR_TRIGGER" | "EARLY_DECIDE"
            | "EARLY_REQ" | "EARLY_EXIT" | "WC_SENT" | "WC_GOT" | "DIST_COLLECTED" | "DIST_DROP" | "DIST_DONE"
-           | "DBG" | "END" | "CT_RENDERERR" | "OUTERR"), _ -> ()
+           | "DBG" | "END" | "CT_RENDERERR" | "OUTERR" | "SHUTDOWN" | "LEAK" | "FAULT" | "RET_SHUTDOWN"), _ -> ()
          | _ -> failwith ("frames: unknown trace line: " ^ line))
     | [] -> ()
     | _ -> failwith ("bad line: " ^ line)) lines;
